@@ -222,16 +222,17 @@ def run_lib(testbin, env, sd, items, nproc, case_ms):
     """items: [(id, bytes)] -> {id: obs}.  The text goes through JSON as latin-1 so that every byte survives."""
     parts = [items[i::nproc] for i in range(nproc)]
     res, lock = {}, threading.Lock()
+    tag = uuid.uuid4().hex[:8]              # several calls may be running at once
 
     def worker(k):
         todo = parts[k]
         gen = 0
         while todo:
             gen += 1
-            fin = os.path.join(sd, "lib-%d-%d.in" % (k, gen))
-            fout = os.path.join(sd, "lib-%d-%d.out" % (k, gen))
-            ferr = os.path.join(sd, "lib-%d-%d.err" % (k, gen))
-            wd = os.path.join(sd, "libwd-%d" % k)
+            fin = os.path.join(sd, "lib-%s-%d-%d.in" % (tag, k, gen))
+            fout = os.path.join(sd, "lib-%s-%d-%d.out" % (tag, k, gen))
+            ferr = os.path.join(sd, "lib-%s-%d-%d.err" % (tag, k, gen))
+            wd = os.path.join(sd, "libwd-%s-%d" % (tag, k))
             os.makedirs(wd, exist_ok=True)
             with open(fin, "w") as f:
                 for cid, src in todo:
@@ -290,7 +291,7 @@ def run_lib(testbin, env, sd, items, nproc, case_ms):
                 raise vf.NoVerdict("in-process driver made no progress (rc=%s hung=%s): %s"
                                    % (p.returncode, hung, open(ferr, errors="replace").read()[-1500:]))
             todo = rest
-            for f in (fin, ferr):
+            for f in (fin, ferr, fout):
                 try:
                     os.remove(f)
                 except OSError:
